@@ -504,6 +504,9 @@ def constructor_forms(ctx):
                 ctx.ev()
                 try:
                     objs.append((n, f()))
+                    # a request made through the intern table, repeated (while the first answer is alive), is answered with the identical object
+                    if not n.startswith("Quantity(") and f() is not objs[-1][1]:
+                        ctx.violation("constructor-forms:repeated-request-is-another-object", {"quantity": gname, "form": n, "ids": [id(objs[-1][1]), id(f())]}, replay={"constructor_forms": True})
                 except Exception as e:
                     ctx.violation("constructor-forms:raised:%s:%s" % (n, type(e).__name__), {"quantity": gname, "error": str(e)[:160]})
             built[gname] = objs
